@@ -222,26 +222,38 @@ def rule_gate(ck):
         ck.ob(R, g, acall, bool(vedges) and _only_via(cfg, anode, vedges), "accept_connection is reachable only when get_websocket_protocol() returned a protocol object (supported version)")
         sts = q.stores_to(g.node, recv)
         ck.ob(R, g, acall, len(sts) >= 1 and all(q.is_call(s.value, "self.get_websocket_protocol") for s in sts), "the protocol object comes from get_websocket_protocol() (version check)")
-    # version table
+    # version table: get_websocket_protocol evaluated for concrete Sec-WebSocket-Version values
+    from ..x_absint import Evaluator, HeaderMap, Obj, UNK
+
     gp = ck.func(W, "WebSocketHandler.get_websocket_protocol")
-    facts = must_facts(gp.cfg)
-    n_ret = 0
-    for n in gp.cfg.stmt_nodes(lambda n: n.kind == "stmt" and isinstance(n.ast, ast.Return) and n.ast.value is not None and not (isinstance(n.ast.value, ast.Constant) and n.ast.value.value is None)):
-        n_ret += 1
-        sets = []
-        for (txt, pol) in facts[n.id]:
-            e = ast.parse(txt, mode="eval").body
-            if pol and isinstance(e, ast.Compare) and len(e.ops) == 1 and isinstance(e.ops[0], (ast.In, ast.Eq)) and isinstance(e.left, ast.Name):
-                src = q.stores_to(gp.node, e.left.id)
-                if len(src) == 1 and _hdr_get(src[0].value, "Sec-WebSocket-Version"):
-                    try:
-                        v = q.fold(e.comparators[0], {})
-                        sets.append(set(v) if isinstance(v, (tuple, frozenset)) else {v})
-                    except q.NotFoldable:
-                        pass
-        ok = len(sets) == 1 and "13" in sets[0] and sets[0] <= {"7", "8", "13"}
-        ck.ob(R, gp, n.ast, ok, "a protocol object is returned only for Sec-WebSocket-Version in a literal set containing '13' and nothing beyond 7/8/13 (got %s)" % (sorted(sets[0]) if len(sets) == 1 else sets))
-    ck.floor(R, n_ret, 1, "protocol-returning paths in get_websocket_protocol")
+    supported, bad = [], []
+    for ver in ("13", "8", "7", "0", "6", "9", "12", "14", "1", "3", "", "13.0", " 13", "+13", "1_3", "713", None):
+        d = {"Upgrade": "websocket"}
+        if ver is not None:
+            d["Sec-WebSocket-Version"] = ver
+        def _int(st_, *a):
+            # int() of a header text: modelled exactly (it accepts surrounding blanks, a sign, underscores)
+            from ..x_absint import Raised
+            if len(a) == 1 and isinstance(a[0], str):
+                try:
+                    return int(a[0])
+                except ValueError:
+                    raise Raised("ValueError")
+            return UNK
+
+        outs = Evaluator(funcs={"int": _int}, max_paths=200).run(gp.node, {"self": Obj("self", request=Obj("request", headers=HeaderMap(d)))})
+        kinds = set()
+        for o in outs:
+            if o.kind == "raise":
+                kinds.add("raise")
+            else:
+                kinds.add("none" if o.value is None else "protocol")
+        if len(kinds) != 1 or "raise" in kinds:
+            raise AnalysisError("get_websocket_protocol: the result for Sec-WebSocket-Version %r is not determined by the abstract interpretation (%s)" % (ver, sorted(kinds)))
+        if kinds == {"protocol"}:
+            supported.append(ver)
+    ok = "13" in supported and set(supported) <= {"7", "8", "13"}
+    ck.ob(R, gp, gp.node, ok, "a protocol object is returned for Sec-WebSocket-Version 13 and for nothing beyond 7/8/13 (17 header values tried; supported: %s)" % supported, construct="supported versions %s" % supported)
 
 
 def _resolve_names(fi, e, depth=4):
